@@ -935,3 +935,160 @@ def check_C17(tier, seed):
     return res.finish(gate)
 
 CHECKS['C17'] = check_C17
+
+# ---------------------------------------------------------------- C15
+def lisp_str(s):
+    return '"' + s.replace('\\', '\\\\').replace('"', '\\"') + '"'
+
+def py_print(v, prin1=True):
+    """Printed form of a Python-side value (str -> Lisp string, ('sym', n), int, float, list)."""
+    from .gen.sexp import fmt_float
+    if v is None: return 'nil'
+    if v is True: return 't'
+    if isinstance(v, str): return lisp_str(v) if prin1 else v
+    if isinstance(v, tuple) and v[0] == 'sym': return v[1]
+    if isinstance(v, int): return str(v)
+    if isinstance(v, float): return fmt_float(v)
+    if isinstance(v, list): return '(' + ' '.join(py_print(x, True) for x in v) + ')' if v else 'nil'
+    raise TypeError(v)
+
+def py_lit(v):
+    if isinstance(v, tuple) and v[0] == 'sym': return "'" + v[1]
+    if isinstance(v, list): return "'" + py_print(v) if v else 'nil'
+    return py_print(v)
+
+def ref_format(fmt, args):
+    """Returns ('ok', text, used_f) | 'error' | None (no opinion)."""
+    out = []; i = 0; k = 0; used_f = False
+    while i < len(fmt):
+        ch = fmt[i]
+        if ch != '%': out.append(ch); i += 1; continue
+        if i + 1 >= len(fmt): return None           # lone % at the end: not covered
+        d = fmt[i + 1]; i += 2
+        if d == '%': out.append('%'); continue
+        if d not in 'sSdf': return 'error'
+        if k >= len(args): return 'error'
+        a = args[k]; k += 1
+        if d == 's': out.append(py_print(a, False))
+        elif d == 'S': out.append(py_print(a, True))
+        elif d == 'd':
+            if isinstance(a, bool) or not isinstance(a, (int, float)): return 'error'
+            out.append(str(int(a)))
+        elif d == 'f':
+            if isinstance(a, bool) or not isinstance(a, (int, float)): return 'error'
+            used_f = True
+            out.append('%f' % float(a))
+    return ('ok', ''.join(out), used_f)
+
+def check_C15(tier, seed):
+    import itertools
+    res = Result('C15', tier, seed); res.pending = []
+    gate = proof_gate('C15')
+    core.build_model(); core.build_impl()
+    rng = random.Random(seed)
+    S = ['', 'a', 'ab', 'b', 'A', '"', '\\', '%', '\n', 'é', '漢', '\U0001F600', 'a"b', 'x\\y', '100%', 'abc', 'ab\\', '\\"']
+    items = []
+    def add(text, exp, tag): items.append((text, {'exp': exp, 'tag': tag}))
+    # concat
+    for n in range(0, 4):
+        for t in (itertools.product(S, repeat=n) if n <= 2 else [tuple(rng.choice(S) for _ in range(n)) for _ in range(tier_n(tier, 200, 4000))]):
+            add('(concat %s)' % ' '.join(lisp_str(x) for x in t), lisp_str(''.join(t)), 'concat')
+    for _ in range(tier_n(tier, 200, 4000)):
+        a, b, c = (rng.choice(S) for _ in range(3))
+        add('(equal (concat (concat %s %s) %s) (concat %s (concat %s %s)))' % tuple(lisp_str(x) for x in (a, b, c, a, b, c)), 't', 'concat-assoc')
+        add('(list (equal (concat %s "") %s) (equal (concat "" %s) %s))' % tuple(lisp_str(x) for x in (a, a, a, a)), '(t t)', 'concat-id')
+    for bad in ['1', "'a", 'nil', "'(\"a\")", '2.5']:
+        add('(concat "a" %s)' % bad, 'E', 'concat-type')
+    # string orderings
+    fns = {'string<': lambda a, b: a < b, 'string>': lambda a, b: a > b, 'string=': lambda a, b: a == b,
+           'string-lessp': lambda a, b: a < b, 'string-greaterp': lambda a, b: a > b, 'string-equal': lambda a, b: a == b}
+    for a, b in itertools.product(S, S):
+        for f, pf in fns.items():
+            add('(%s %s %s)' % (f, lisp_str(a), lisp_str(b)), 't' if pf(a, b) else 'nil', 'strcmp')
+    for f in fns:
+        add('(%s "a" 1)' % f, 'E', 'strcmp-type'); add('(%s \'a "a")' % f, 'E', 'strcmp-type'); add('(%s "a")' % f, 'E', 'strcmp-arity')
+        add('(%s "a" "b" "c")' % f, 'E', 'strcmp-arity')
+    # format
+    dirs = ['%s', '%S', '%d', '%f', '%%', '%x', 'lit', ' ', '%c']
+    argvals = [1, -7, 2.5, 22.8, 3.0, 'str', 'a"b', ('sym', 'foo'), None, True, [1, 'x'], [('sym', 'a'), [2]], '', 'x\\y']
+    nfmt = tier_n(tier, 1500, 40000)
+    fmts = []
+    for n in (0, 1, 2):
+        for t in itertools.product(dirs, repeat=n): fmts.append(''.join(t))
+    while len(fmts) < nfmt: fmts.append(''.join(rng.choice(dirs) for _ in range(3)))
+    for f in fmts:
+        need = len(re.findall(r'%[^%]', f.replace('%%', '')))
+        for delta in (-1, 0, 1):
+            n = need + delta
+            if n < 0: continue
+            args = [rng.choice(argvals) for _ in range(n)]
+            if rng.random() < 0.5:
+                # mostly well-typed
+                ds = re.findall(r'%([^%])', f.replace('%%', ''))
+                for i, d in enumerate(ds[:n]):
+                    if d == 'd': args[i] = rng.choice([1, -7, 2.5, 40])
+                    if d == 'f': args[i] = rng.choice([1, 2.5, 22.8, -0.5])
+            exp = ref_format(f, args)
+            text = '(format %s%s)' % (lisp_str(f), ''.join(' ' + py_lit(a) for a in args))
+            if exp is None: add(text, None, 'format')
+            elif exp == 'error': add(text, 'E', 'format')
+            else: items.append((text, {'exp': lisp_str(exp[1]), 'tag': 'format', 'used_f': exp[2]}))
+    add('(format 5)', 'E', 'format'); add("(format 'a 1)", 'E', 'format'); add('(format)', 'E', 'format')
+    # prin1-to-string / print / princ
+    for v in argvals + [[1, 2, [3]], 100, -0.5]:
+        has_str = 'str' if ('"' in py_print(v, True)) else 'nostr'
+        items.append(('(prin1-to-string %s)' % py_lit(v), {'exp': lisp_str(py_print(v, True)), 'tag': 'prin1', 'has_str': has_str == 'str'}))
+        add('(equal (print %s) %s)' % (py_lit(v), py_lit(v)), 't', 'print-ret')
+        add('(equal (princ %s) %s)' % (py_lit(v), py_lit(v)), 't', 'print-ret')
+    # symbols
+    names = ['abc', 'a', 'x-y', 'nil2', ':kw', 'é', 'with space', '']
+    for n in names:
+        add('(let ((s (intern %s))) (list (symbolp s) (eq s (intern %s)) (equal (prin1-to-string s) %s)))' % (lisp_str(n), lisp_str(n), lisp_str(n)), '(t t t)', 'intern')
+        add('(let ((s (make-symbol %s))) (list (symbolp s) (eq s (intern %s)) (eq s (make-symbol %s)) (eq s s) (equal (prin1-to-string s) %s)))' % ((lisp_str(n),) * 4), '(t nil nil t t)', 'make-symbol')
+    add("(eq (intern \"abc\") 'abc)", 't', 'intern'); add("(intern 'a)", 'E', 'intern'); add('(make-symbol 1)', 'E', 'make-symbol')
+    add('(gensym 1)', 'E', 'gensym-type')
+    for _ in range(tier_n(tier, 60, 1500)):
+        k = rng.choice([2, 3, 5, 8])
+        pre = rng.choice(['', '"g"', '"p"', '"x-"'])
+        calls = ' '.join('(prin1-to-string (gensym %s))' % (pre if rng.random() < 0.8 else '') for _ in range(k))
+        wrap = rng.choice(['(list %s)', '(let ((gensym-counter %d)) (list %%s))' % rng.choice([0, 5, 100]), '(progn (setq gensym-counter %d) (list %%s))' % rng.choice([0, 7])])
+        items.append((wrap % calls, {'exp': None, 'tag': 'gensym', 'k': k}))
+        add('(let ((a (gensym)) (b (gensym))) (list (eq a b) (eq a a) (symbolp a)))', '(nil t t)', 'gensym-eq')
+    rows = run_exprs(res, items, per_case=25)
+    nv = 0; kf_prin1 = kf_f = 0
+    distinct = set()
+    for text, meta, im, mo in rows:
+        if im is None: continue
+        tag = meta['tag']
+        got = im['payload'] if im['kind'] == 'V' else im['kind']
+        distinct.add((tag, got[:30]))
+        def bad(exp, why):
+            nonlocal nv
+            nv += 1
+            if nv <= 8: res.violation('strings', {'expr': text, 'expected': exp, 'impl': im, 'why': why})
+        if im['kind'] not in ('V', 'E'): bad(None, 'panic'); continue
+        if tag == 'gensym':
+            if im['kind'] != 'V': bad(None, 'gensym failed'); continue
+            names_ = re.findall(r'"([^"]*)"', im['payload'])
+            if len(names_) != meta['k'] or len(set(names_)) != len(names_): bad('distinct names', 'successive gensym names repeat')
+            continue
+        exp = meta['exp']
+        if exp is None: continue
+        if got != exp:
+            if tag == 'prin1' and meta.get('has_str'): kf_prin1 += 1; continue
+            if tag == 'format' and meta.get('used_f'): kf_f += 1; continue
+            bad(exp, tag)
+    replay_known(res, 'C15')
+    classifier_hits(res, 'C15', 'c15_prin1_string', kf_prin1, '(prin1-to-string "a") => a')
+    classifier_hits(res, 'C15', 'c15_format_f', kf_f, '(format "%f" 22.8) => 22.8')
+    res.cov['distinct_nontrivial'] = len(distinct)
+    res.cov['rule'] = ('concat of all tuples of length 0-2 (random 3) over %d strings incl. empty, quote, backslash, percent, newline, non-ASCII, astral; associativity/identity laws; '
+                       'six string comparisons on all pairs; all format strings of up to 2 pieces over {%%s %%S %%d %%f %%%% %%x %%c literal} and random 3-piece ones, with too few / exact / too many / '
+                       'ill-typed arguments; prin1-to-string, print, princ; intern / make-symbol / gensym identity and name sequences (also under a let-bound gensym-counter); '
+                       'oracle: Python string functions; correspondence with the model' % len(S))
+    res.cov['samples'] = [rows[0][0], rows[len(rows) // 3][0], rows[2 * len(rows) // 3][0]]
+    for d in res.pending:
+        res.violation('disagreement', d, no_input=not oracle_confirms(d))
+    return res.finish(gate)
+
+CHECKS['C15'] = check_C15
